@@ -68,4 +68,19 @@ def blake2s (nn : Nat) (msg : List UInt8) : List UInt8 :=
   let h := loop h 0 (msg.length / 64 + 2) msg
   (h.toList.flatMap fun (w : UInt32) => [w.toUInt8, (w >>> 8).toUInt8, (w >>> 16).toUInt8, (w >>> 24).toUInt8]).take nn
 
+/-- little-endian bytes of the state words, first nn bytes -/
+def outBytes (h : Array UInt32) (nn : Nat) : List UInt8 :=
+  (h.toList.flatMap fun (w : UInt32) => [w.toUInt8, (w >>> 8).toUInt8, (w >>> 16).toUInt8, (w >>> 24).toUInt8]).take nn
+
+/-- §2.5 / §3.3: parameter block word 0 = 0x0101kknn -/
+def initH (kk nn : Nat) : Array UInt32 :=
+  IV.setIfInBounds 0 (IV.getD 0 0 ^^^ (0x01010000 : UInt32) ^^^ (UInt32.ofNat kk <<< (8 : UInt32)) ^^^ UInt32.ofNat nn)
+
+/-- RFC 7693 §3.3 with a key of kk = key.length bytes (1 ≤ kk ≤ 32): the key, zero-padded to one block, is
+    the first block of the data; kk = 0 is the unkeyed hash -/
+def blake2sK (nn : Nat) (key msg : List UInt8) : List UInt8 :=
+  let kk := key.length
+  let d := if kk > 0 then key ++ List.replicate (64 - kk) 0 ++ msg else msg
+  outBytes (loop (initH kk nn) 0 (d.length / 64 + 2) d) nn
+
 end Relic.Spec.Blake2s
